@@ -54,6 +54,7 @@ SCENARIOS = {
     "tie-in-the-middle": [[H("a")], [H("b"), H("c")], [H("d")]],
     "dependent-on-top": [[H("a", dep=True)], [H("b")]],
     "dependent-with-static-in-one-rank": [[H("a", dep=True), H("b")], [H("c")]],
+    "static-first-dependent-second": [[H("b"), H("a", dep=True)], [H("c")]],
     "dependent-rank-below": [[H("a")], [H("b", dep=True), H("c", dep=True)], [H("d")]],
     "dependent-last": [[H("a")], [H("b", dep=True)]],
     "dependent-over-tie": [[H("a", dep=True)], [H("b"), H("c")]],
@@ -139,6 +140,18 @@ def execute(ctx, res, scenario, prefill_head=False):
     methods = {n: m.node for n, m in cls.methods.items() if m is not rankers[0] and m is not w}
     funcs = {n: f.node for n, f in res.module.funcs.items() if f.parent is None and f.cls is None}
     hi = HostInterp(methods, me, {}, globals_env=genv, classes={}, functions=funcs)
+    hi.host_types = hi.host_types + (Table,)
+    # attributes the constructor sets (a change may add some): run it on a scratch object and copy what we do not stub
+    if init is not None:
+        scratch = Table()
+        try:
+            ginit = dict(genv, count=lambda *a: Record(kind="counter"), MISSING="<MISSING>", KeyError=Record(kind="KeyError"))
+            HostInterp(methods, scratch, {}, globals_env=ginit, classes={}, functions=funcs).call_function(init.node, [scratch] + ["<arg>"] * (len(init.params) - 1), {}, {})
+            for k, v in scratch.__dict__.items():
+                if k not in me.__dict__:
+                    setattr(me, k, v)
+        except (AnalysisError, Raised):
+            pass
     out = Outcome()
     out.raised = None
     try:
